@@ -35,7 +35,7 @@ def strategy(tier):
     @st.composite
     def _s(draw):
         model = G.gen_model(draw, c)
-        if draw(st.integers(0, 9)) != 0:
+        if False:  # nothing is carved out any more (linearize() fix)
             for a in model["assigns"]:
                 for s in model["states"]:
                     if a["name"] == X.deriv_name(s["name"]):
